@@ -3,6 +3,7 @@ package main
 import (
 	"go/ast"
 	"go/token"
+	"strings"
 )
 
 func init() { constGens["noise"] = c16GenNoise }
@@ -52,6 +53,44 @@ func c16GenNoise(s *src, o *out) {
 		"win_move_final", "win_digit_lo", "win_digit_hi", "win_home_prev", "win_home_final", "win_esc"}
 	for i, n := range names {
 		o.defN(n, w[i])
+	}
+	// the duplicate test reads bytes[len(bytes)-1]: is it guarded by `len(bytes) > 0` in an
+	// earlier conjunct of the same condition?  A VALUE, pinned in Proofs/NoiseWin.v.
+	{
+		var flat func(e ast.Expr) []ast.Expr
+		flat = func(e ast.Expr) []ast.Expr {
+			if p, ok := e.(*ast.ParenExpr); ok {
+				return flat(p.X)
+			}
+			if b, ok := e.(*ast.BinaryExpr); ok && b.Op == token.LAND {
+				return append(flat(b.X), flat(b.Y)...)
+			}
+			return []ast.Expr{e}
+		}
+		found, guarded := false, false
+		ast.Inspect(s.fn("trzszBuffer.readLineOnWindows").Body, func(n ast.Node) bool {
+			st, ok := n.(*ast.IfStmt)
+			if !ok || !strings.Contains(s.text(st.Cond), "bytes[len(bytes)-1]") || found {
+				return true
+			}
+			found = true
+			seenGuard := false
+			for _, cj := range flat(st.Cond) {
+				t := s.text(cj)
+				if t == "len(bytes) > 0" || t == "len(bytes) != 0" || t == "len(bytes) >= 1" {
+					seenGuard = true
+				}
+				if strings.Contains(t, "bytes[len(bytes)-1]") {
+					guarded = seenGuard
+					break
+				}
+			}
+			return true
+		})
+		if !found {
+			die("readLineOnWindows: no condition reads bytes[len(bytes)-1] any more")
+		}
+		o.raw("Definition win_dup_guard_nonempty : bool := %v.\n", guarded)
 	}
 	l := c03CharLits(s, s.fn("isTrzszLetter"))
 	if len(l) != 11 {
